@@ -423,3 +423,22 @@ m("benign-explicit-err-return", "C14", "nomt/src/store/meta.rs",
   "        fd.sync_all()?;\n        Ok(())",
   "        if let Err(e) = fd.sync_all() {\n            eprintln!(\"meta fsync failed: {e}\");\n            return Err(e);\n        }\n        Ok(())",
   None)
+
+m("benign-meta-write-helper", "C03", "nomt/src/store/sync.rs",
+  "        Meta::write(&shared.io_pool.page_pool(), &shared.meta_fd, &new_meta)?;\n        self.sync_seqn += 1;\n",
+  "        Self::switch_over(shared, &new_meta)?;\n        self.sync_seqn += 1;\n",
+  None,
+  also=[("nomt/src/store/sync.rs", "    pub fn sync(\n        &mut self,", "    fn switch_over(shared: &Shared, new_meta: &Meta) -> std::io::Result<()> {\n        Meta::write(&shared.io_pool.page_pool(), &shared.meta_fd, new_meta)\n    }\n\n    pub fn sync(\n        &mut self,")])
+m("benign-meta-write-helper-c04", "C04", "nomt/src/store/sync.rs",
+  "        Meta::write(&shared.io_pool.page_pool(), &shared.meta_fd, &new_meta)?;\n        self.sync_seqn += 1;\n",
+  "        Self::switch_over(shared, &new_meta)?;\n        self.sync_seqn += 1;\n",
+  None,
+  also=[("nomt/src/store/sync.rs", "    pub fn sync(\n        &mut self,", "    fn switch_over(shared: &Shared, new_meta: &Meta) -> std::io::Result<()> {\n        Meta::write(&shared.io_pool.page_pool(), &shared.meta_fd, new_meta)\n    }\n\n    pub fn sync(\n        &mut self,")])
+m("benign-join-then-check", "C03", "nomt/src/bitbox/mod.rs",
+  "        join_task(&self.begin_sync_result_rx)?;\n        join_task(&self.pre_meta_result_rx)?;\n        Ok(())",
+  "        let begun = join_task(&self.begin_sync_result_rx);\n        begun?;\n        let wal_written = join_task(&self.pre_meta_result_rx);\n        wal_written?;\n        Ok(())",
+  None)
+m("benign-extra-lock-free-helper", "C15", "nomt/src/lib.rs",
+  "    pub fn root(&self) -> Root {\n        self.shared.lock().root.clone()\n    }",
+  "    pub fn root(&self) -> Root {\n        let shared = self.shared.lock();\n        let root = shared.root.clone();\n        drop(shared);\n        root\n    }",
+  None)
